@@ -7,7 +7,7 @@ import pandas as pd
 
 LAYOUTS = ('single_deck', 'two_decks', 'three_decks', 'sparse', 'multi_hit', 'unequal_sampling', 'coincident', 'all_nan',
            'single_hit', 'identical_heights', 'two_values', 'vv', 'high_and_low', 'thick', 'type_gt3', 'many_ceilos',
-           'missing_lower_types', 'repeated_type1', 'near_identical_heights', 'creeping_deck')
+           'missing_lower_types', 'repeated_type1', 'near_identical_heights', 'creeping_deck', 'nan_higher_slots')
 
 
 def _df(rows):
@@ -32,7 +32,7 @@ def scene(k: int, seed: int = 0):
              'multi_hit': [1200, 2500], 'unequal_sampling': [1800, 5000], 'coincident': [2200], 'identical_heights': [3300],
              'two_values': [1000], 'vv': [600], 'high_and_low': [900, 14000, 30000], 'thick': [2000], 'type_gt3': [500, 1500, 2500, 3500, 4500],
              'many_ceilos': [2500, 6000], 'missing_lower_types': [1200, 2600, 4000], 'repeated_type1': [1500, 3000],
-             'near_identical_heights': [2900], 'creeping_deck': [2500]}.get(layout, [])
+             'near_identical_heights': [2900], 'creeping_deck': [2500], 'nan_higher_slots': [1800, 12000]}.get(layout, [])
     for ci, c in enumerate(names):
         n_c = nt if layout != 'unequal_sampling' else max(1, nt // (ci + 1))
         offs = 0.0 if layout == 'coincident' else rng.uniform(0, span / max(n_c, 1) / 3)
@@ -57,7 +57,7 @@ def scene(k: int, seed: int = 0):
             for di, base in enumerate(decks):
                 p = {'sparse': 0.15, 'single_deck': 0.9, 'near_identical_heights': 0.95, 'creeping_deck': 0.95}.get(layout, 0.7)
                 if layout in ('multi_hit', 'type_gt3', 'three_decks', 'two_decks', 'high_and_low', 'many_ceilos', 'unequal_sampling',
-                              'missing_lower_types', 'repeated_type1', 'near_identical_heights', 'creeping_deck'):
+                              'missing_lower_types', 'repeated_type1', 'near_identical_heights', 'creeping_deck', 'nan_higher_slots'):
                     want = rng.random() < p
                 else:
                     want = (di == 0 and rng.random() < p)
@@ -88,6 +88,9 @@ def scene(k: int, seed: int = 0):
                     rows.append((c, dt, max(h, 0.0), hit_no))
             if hit_no == 0:
                 rows.append((c, dt, np.nan, 0))
+            elif layout == 'nan_higher_slots' and hit_no == 1:
+                # an instrument that always delivers its second slot: NaN when there is no second hit (accepted input)
+                rows.append((c, dt, np.nan, 2))
     if rng.random() < 0.3:
         rng.shuffle(rows)
     df = _df(rows)
